@@ -13,7 +13,7 @@ RULE = ("Hypothesis-generated simple loop-free graphs built as unions of planted
         "vertices allowed, node ids relabelled by a random injective map and inserted in random order; a history of "
         "MPCC calls with limits from {0,2,3,4,5} on the same graph object interleaved with in-place edge additions / "
         "removals; RNG seeded or scripted (the shuffle among equal-sized cliques). Plus every graph of the networkx "
-        "atlas on <= 5 (quick) / <= 6 nodes x limits {0,2,3} x 3 schedules. Oracle: label partition + greedy-maximal "
+        "atlas on <= 5 (quick) / <= 6 nodes x limits {0,2,3} x 3 schedules. Vertex names: ints (incl. -1, 0, .., n-3, n-1), strings (incl. names containing the label separators), tuples; frozen graphs; two large sparse hub networks. Oracle: label partition + greedy-maximal "
         "predicate against nx.enumerate_all_cliques. Non-trivial = graph contains two triangles sharing an edge or a "
         "clique of size >= 4; distinct = canonical JSON")
 ASSUMPTIONS = ["node ids are ints, strings or tuples of such (labels embed the member list textually, as the repr of a list, and are parsed back)"]
@@ -48,7 +48,7 @@ def graph_history(draw, tier):
     edges = sorted(edges)
     order = draw(st.permutations(edges)) if edges else []
     flip = [draw(st.booleans()) for _ in order]
-    relabel = draw(st.sampled_from(["id", "offset", "perm", "negative", "big", "str", "str_odd"]))
+    relabel = draw(st.sampled_from(["id", "offset", "perm", "negative", "big", "str", "str_odd", "wrap"]))
     if relabel == "perm":
         labels = draw(st.permutations(list(range(n))))
     elif relabel == "offset":
@@ -57,6 +57,10 @@ def graph_history(draw, tier):
         labels = [x - 2 for x in draw(st.permutations(list(range(n))))]
     elif relabel == "big":
         labels = [1000 + 37 * x for x in draw(st.permutations(list(range(n))))]
+    elif relabel == "wrap":
+        # integer names -1, 0, .., n-3, n-1: all below n, not contiguous, and -1 + n is a name as well
+        base_ = ([-1] + list(range(n - 2)) + [n - 1]) if n >= 3 else list(range(n))
+        labels = [base_[x] for x in draw(st.permutations(list(range(n))))]
     elif relabel == "str":
         labels = [f"v{x}" for x in draw(st.permutations(list(range(n))))]
     elif relabel == "str_odd":
@@ -81,7 +85,9 @@ def graph_history(draw, tier):
     tuple_named = draw(st.integers(0, 5)) == 5
     return {"n": n, "tuple_named": tuple_named, "object_vertices": (not tuple_named) and draw(st.integers(0, 5)) == 5,
             "edges": [[(b, a) if f else (a, b)][0] for (a, b), f in zip(order, flip)], "labels": list(labels),
-            "node_order": list(node_order) if node_order else None, "ops": ops, "rng": r}
+            "node_order": list(node_order) if node_order else None, "ops": ops, "rng": r,
+            # the graph handed over may be frozen (nx.freeze): its structure is read-only, its edge attributes are not
+            "frozen": draw(st.integers(0, 7)) == 7}
 
 
 def strategy(tier):
@@ -231,6 +237,9 @@ def check(case):
     classes = set()
     r = case["rng"]
     ctx = rng.seeded(r["seed"]) if r["mode"] == "seed" else rng.scripted(ints=r["ints"], tail_seed=r.get("tail", 0))
+    if case.get("frozen") and all(op == "mpcc" for op, _ in case["ops"]):
+        nx.freeze(G)
+        classes.add("frozen_graph")
     with ctx:
         nm = 0
         for step, (op, arg) in enumerate(case["ops"]):
